@@ -44,6 +44,8 @@ MATERIAL_UNITS = {"mass": MASS_U, "volume": VOL_U, "molar": MOL_U}
 
 ADS_SUB = [("N2", 77.355), ("Ar", 87.3), ("CO2", 273.15), ("CH4", 111.7), ("O2", 90.2), ("Kr", 119.9),
            ("C4H10", 272.6), ("H2O", 298.15)]
+SUB_TEMPS = {"N2": [77.355, 87.3, 100.0], "Ar": [87.3, 95.0, 110.0], "CO2": [273.15, 283.15, 298.15], "CH4": [111.7, 130.0, 150.0],
+             "O2": [90.2, 100.0, 120.0], "Kr": [119.9, 150.0, 170.0], "C4H10": [272.6, 298.15, 320.0], "H2O": [298.15, 323.15, 350.0]}
 ADS_SUPER = [("N2", 298.15), ("CH4", 303.0), ("H2", 77.0), ("Ar", 200.0)]
 
 
@@ -152,8 +154,23 @@ def gen_world(rng, index):
         iso["keys"] = rng.choice([["p", "q"], ["P/bar", "uptake"], ["loading", "pressure"]])   # custom (even swapped) column names
         if isinstance(branch, list) and rng.random() < 0.5:
             iso["branch_in_frame"] = True
-    return {"adsorbates": [user_ads] if user_ads else [], "iso": iso, "T_K": T,
-            "ads_class": cls, "mat_class": mcls}
+    world = {"adsorbates": [user_ads] if user_ads else [], "iso": iso, "T_K": T,
+             "ads_class": cls, "mat_class": mcls}
+    if cls == "sub" and rng.random() < 0.3:
+        # a second isotherm of the same gas at another (sub-critical) temperature, converted in the same process:
+        # the two share one Adsorbate object and hence one thermodynamic state
+        alt = [t for t in SUB_TEMPS[ads] if abs(t - T) > 1.0]
+        T2 = rng.choice(alt)
+        lab2 = decode_rep(_PERM[(index * 7919 + 13) % len(_PERM)])
+        n2 = rng.randint(3, 8)
+        p2 = [round((i + 1) * rng.uniform(0.05, 0.5) * scale_p, 12) for i in range(n2)]
+        p2 = sorted(set(p2))
+        l2 = [(i + 1) * 0.75 * scale_l for i in range(len(p2))]
+        world["sibling"] = {"T_K": T2, "iso": {
+            "kind": "point", "material": material, "adsorbate": ads,
+            "temperature": T2 if lab2["temperature_unit"] == "K" else T2 - 273.15,
+            "units": lab2, "meta": {}, "pressure": p2, "loading": l2, "branch": "ads", "other": {}, "route": "arrays"}}
+    return world
 
 
 # --------------------------------------------------------------------------- constants (read in a throw-away child)
@@ -164,7 +181,7 @@ def _read_consts(world):
     build.register_world({"adsorbates": world["adsorbates"]})
     iso = build.make_isotherm(world["iso"])
     ads = iso.adsorbate
-    T = iso.temperature
+    T = float(world["T_K"])     # the generator's own kelvin value, not what the isotherm object reports
     out = {}
 
     def grab(name, fn):
@@ -551,16 +568,18 @@ class Oracle:
             if self.step_possible(before, g, b, op["unit_to"]):
                 self.fail("possible-conversion-refused", f"after={opc} error={err[1]}", {"before": before, "op": op})
         elif o == "return":
+            # the combined call must succeed only if it is possible in EVERY order of its single-quantity steps
+            # (the property does not fix the order; pressure is independent of the other two)
             kw = op["kw"]
-            lab = dict(before)
-            if not self.step_possible(lab, "pressure", kw["pressure_mode"], kw["pressure_unit"]):
-                return
-            lab["pressure_mode"], lab["pressure_unit"] = kw["pressure_mode"], kw["pressure_unit"]
-            if not self.step_possible(lab, "material", kw["material_basis"], kw["material_unit"]):
-                return
-            lab["material_basis"], lab["material_unit"] = kw["material_basis"], kw["material_unit"]
-            if not self.step_possible(lab, "loading", kw["loading_basis"], kw["loading_unit"]):
-                return
+            for order in (("material", "loading"), ("loading", "material")):
+                lab = dict(before)
+                if not self.step_possible(lab, "pressure", kw["pressure_mode"], kw["pressure_unit"]):
+                    return
+                lab["pressure_mode"], lab["pressure_unit"] = kw["pressure_mode"], kw["pressure_unit"]
+                for g in order:
+                    if not self.step_possible(lab, g, kw[g + "_basis"], kw[g + "_unit"]):
+                        return
+                    lab[g + "_basis"], lab[g + "_unit"] = kw[g + "_basis"], kw[g + "_unit"]
             self.fail("possible-conversion-refused", f"after={opc} error={err[1]}", {"before": before, "op": op})
 
     # clauses 4 and 6 --------------------------------------------------------
@@ -662,32 +681,47 @@ def _apply(iso, op):
         raise ValueError(o)
 
 
+def _sub_world(world, k):
+    """World-like dict of isotherm k (0 = main, 1 = sibling of the same adsorbate at another temperature)."""
+    if k == 0:
+        return world
+    sib = world["sibling"]
+    return {"adsorbates": world["adsorbates"], "iso": sib["iso"], "T_K": sib["T_K"]}
+
+
 def execute(world, consts, rs=None, ops=None, n_ops=None):
-    """Run a history (generated from rs, or the fixed list ops) in THIS process (a forked child)."""
+    """Run a history (generated from rs, or the fixed list ops) in THIS process (a forked child).
+
+    consts is a list, one entry per isotherm of the world (main isotherm, optional sibling)."""
     from sim.worlds import build
     build.register_world({"adsorbates": world["adsorbates"]})
-    iso = build.make_isotherm(world["iso"])
-    orc = Oracle(world, consts)
+    n_iso = 2 if world.get("sibling") else 1
+    isos = [build.make_isotherm(_sub_world(world, k)["iso"]) for k in range(n_iso)]
+    orcs = [Oracle(_sub_world(world, k), consts[k]) for k in range(n_iso)]
     rng = random.Random(rs) if ops is None else None
     executed = []
     events = []
     counters = {}
     edges = set()
     reps = set()
+    viol = None
 
     def count(k, n=1):
         counters[k] = counters.get(k, 0) + n
 
-    # the freshly built isotherm must itself satisfy clauses 1-2 (else the world is at fault, not pyGAPS)
-    orc.check_valid(iso, "construct")
-    if orc.viol is None:
-        orc.check_consistent(iso, "construct")
-    if orc.viol is not None:
-        from sim.core.proc import HarnessError
-        raise HarnessError("world does not satisfy the oracle at construction: " + json.dumps(orc.viol)[:800])
+    # the freshly built isotherms must themselves satisfy clauses 1-2 (else the world is at fault, not pyGAPS)
+    for iso, orc in zip(isos, orcs):
+        orc.check_valid(iso, "construct")
+        if orc.viol is None:
+            orc.check_consistent(iso, "construct")
+        if orc.viol is not None and orc.viol["kind"].startswith("C02/temperature"):
+            orc.viol = None      # a wrong kelvin temperature is the library's doing: the first call's check reports it
+        if orc.viol is not None:
+            from sim.core.proc import HarnessError
+            raise HarnessError("world does not satisfy the oracle at construction: " + json.dumps(orc.viol)[:800])
 
-    start = dict(world["iso"]["units"])
-    expected = dict(start)   # labels the isotherm should have (tracks only successful, valid states)
+    starts = [dict(_sub_world(world, k)["iso"]["units"]) for k in range(n_iso)]
+    expected = [dict(st) for st in starts]   # labels each isotherm should have (tracks only successful, valid states)
     step = 0
     next_return = rng.randint(4, 8) if rng else None
     total = n_ops if n_ops is not None else (rng.randint(6, 20) if rng else len(ops))
@@ -699,14 +733,20 @@ def execute(world, consts, rs=None, ops=None, n_ops=None):
         else:
             if step >= total:
                 break
+            k = 1 if (n_iso == 2 and rng.random() < 0.4) else 0
             if step == total - 1 or step == next_return:
-                op = return_op(start)
+                op = return_op(starts[k])
                 next_return = step + rng.randint(4, 8)
             else:
-                op = gen_op(rng, expected)
+                op = gen_op(rng, expected[k])
+            if k:
+                op["i"] = k
         step += 1
+        k = op.get("i", 0) if op.get("i", 0) < n_iso else 0
+        iso, orc, start = isos[k], orcs[k], starts[k]
         executed.append(op)
         before_s = snapshot(iso)
+        others_before = [snapshot(x) for j, x in enumerate(isos) if j != k]
         before = before_s["labels"]
         opc = op_class(op, before)
         err = None
@@ -716,9 +756,11 @@ def execute(world, consts, rs=None, ops=None, n_ops=None):
             err = dg.canon_error(e)
         after_s = snapshot(iso)
         after = after_s["labels"]
-        events.append([op["op"], err, [after[k] for k in LABELS], dg.sha([after_s["cols"], after_s["_temperature"]])[:16]])
+        events.append([op["op"], k, err, [after[x] for x in LABELS], dg.sha([after_s["cols"], after_s["_temperature"]])[:16]])
         count("ops")
         count("op:" + op["op"])
+        if n_iso == 2:
+            count("ops-in-two-isotherm-worlds")
         if op["op"] == "observe":
             orc.check_bystanders(op, before_s, after_s, opc)
             ch = orc.diff_snap(before_s, after_s)
@@ -727,7 +769,7 @@ def execute(world, consts, rs=None, ops=None, n_ops=None):
         elif err is not None:
             count("refused")
             count("refused:" + err[1])
-            reps.add("refuse|" + "|".join(str(before[k]) for k in LABELS[:6]) + "|" + opc)
+            reps.add("refuse|" + "|".join(str(before[x]) for x in LABELS[:6]) + "|" + opc)
             if op["op"] in ("convert", "return"):
                 valid = orc.check_valid(iso, opc)
                 if valid and orc.viol is None:
@@ -736,7 +778,7 @@ def execute(world, consts, rs=None, ops=None, n_ops=None):
                     orc.check_refused_convert(op, before, after, opc)
                 if orc.viol is None:
                     orc.check_bystanders(op, before_s, after_s, opc)
-                if any(before[k] != after[k] for k in LABELS):
+                if any(before[x] != after[x] for x in LABELS):
                     count("probe:refusal-inside-convert-after-completed-step")
             else:
                 orc.check_refused_single(before_s, after_s, opc, err)
@@ -753,11 +795,11 @@ def execute(world, consts, rs=None, ops=None, n_ops=None):
                 orc.check_bystanders(op, before_s, after_s, opc)
             if orc.viol is None and op["op"] == "return":
                 count("probe:return-trip-executed")
-                if any(after[k] != start[k] for k in LABELS):
+                if any(after[x] != start[x] for x in LABELS):
                     orc.fail("return-labels-differ", f"after={opc}", {"after": after, "start": start})
             if orc.viol is None:
-                b6 = "|".join(str(before[k]) for k in LABELS)
-                a6 = "|".join(str(after[k]) for k in LABELS)
+                b6 = "|".join(str(before[x]) for x in LABELS)
+                a6 = "|".join(str(after[x]) for x in LABELS)
                 if b6 != a6:
                     edges.add(b6 + ">" + a6)
                 reps.add(a6)
@@ -768,20 +810,29 @@ def execute(world, consts, rs=None, ops=None, n_ops=None):
                     count("probe:omitted-basis")
                 if op.get("cls") == "basis_only":
                     count("probe:omitted-unit")
+                if k and executed[:-1] and executed[-2].get("i", 0) != k:
+                    count("probe:conversion-right-after-one-on-the-sibling")
         if err is not None and op.get("cls") in ("wrong_unit", "bad_basis"):
             count("probe:impossible-target-refused")
+        # a conversion of one isotherm never touches another one (they may share the Adsorbate object)
+        if orc.viol is None:
+            others_after = [snapshot(x) for j, x in enumerate(isos) if j != k]
+            for ob, oa in zip(others_before, others_after):
+                ch = orc.diff_snap(ob, oa)
+                if ch:
+                    orc.fail("other-isotherm-changed", f"after={opc} changed={','.join(ch)}", {})
         if orc.viol is not None:
-            orc.viol["step"] = step
+            viol = orc.viol
+            viol["step"] = step
             break
         if err is None or op["op"] in ("convert", "return"):
-            expected = dict(after)
+            expected[k] = dict(after)
     res = {"digest": dg.sha(events), "counters": counters,
            "sets": {"edges": sorted(edges), "reps": sorted(reps)},
            "violations": [], "n_ops": len(executed)}
-    if orc.viol is not None:
-        v = orc.viol
-        v["replay"] = {"world": world, "ops": executed}
-        res["violations"].append(v)
+    if viol is not None:
+        viol["replay"] = {"world": world, "ops": executed}
+        res["violations"].append(viol)
     res["executed"] = executed
     res["events"] = events
     return res
@@ -799,11 +850,18 @@ def _child_replay(world, consts, ops):
     return execute(world, consts, ops=ops)
 
 
+def all_consts(ctx, world):
+    out = [get_consts(ctx, world)]
+    if world.get("sibling"):
+        out.append(get_consts(ctx, _sub_world(world, 1)))
+    return out
+
+
 def run(ctx, index):
     rs = ctx.rs(index)
     rng = random.Random(rs)
     world = gen_world(rng, index)
-    consts = get_consts(ctx, world)
+    consts = all_consts(ctx, world)
     keep = index < 3
     out = fork_call(_child_run, (world, consts, rs ^ 0x5DEECE66D, keep), timeout=120)
     if out["result"] is None:
@@ -815,7 +873,8 @@ def run(ctx, index):
     if keep:
         res["sample"] = {"run": index, "start": world["iso"]["units"], "adsorbate": world["iso"]["adsorbate"],
                          "T_K": world["T_K"], "material": world["iso"]["material"], "points": len(world["iso"]["pressure"]),
-                         "history": [[e[0], ("refused:" + e[1][1]) if e[1] else "ok", e[2]] for e in res.get("events", [])]}
+                         "sibling": bool(world.get("sibling")),
+                         "history": [[e[0], e[1], ("refused:" + e[2][1]) if e[2] else "ok", e[3]] for e in res.get("events", [])]}
     res.pop("executed", None)
     res.pop("events", None)
     return res
@@ -823,7 +882,7 @@ def run(ctx, index):
 
 def replay(ctx, rep):
     world = rep["world"]
-    consts = get_consts(ctx, world)
+    consts = all_consts(ctx, world)
     out = fork_call(_child_replay, (world, consts, rep["ops"]), timeout=120)
     if out["result"] is None:
         from sim.core.proc import HarnessError
@@ -867,7 +926,7 @@ def minimise(ctx, rep):
     def fails(w, ops):
         tests[0] += 1
         try:
-            consts = get_consts(ctx, w)
+            consts = all_consts(ctx, w)
             out = fork_call(_child_replay, (w, consts, ops), timeout=60)
         except Exception:
             return False
